@@ -117,6 +117,15 @@ theorem update_rest (st : PState) (p : Rat × Rat) (r : Str) : (st.update p r).r
 theorem update_command (st : PState) (p : Rat × Rat) (r : Str) : (st.update p r).command = st.command := by
   unfold PState.update; dsimp only; cases st.position <;> rfl
 
+/-- marking the start of a subpath (`mark` in `step`) changes neither the input left nor the command -/
+theorem mark_update (b : Bool) (s0 : PState) (q : Rat × Rat) (t : Str) :
+    (if b = true then { (s0.update q t) with startPos := (s0.update q t).position } else s0.update q t).rest = t ∧
+    (if b = true then { (s0.update q t) with startPos := (s0.update q t).position } else s0.update q t).command =
+      s0.command := by
+  cases b
+  · exact ⟨update_rest _ _ _, update_command _ _ _⟩
+  · exact ⟨update_rest _ _ _, update_command _ _ _⟩
+
 /-- the remembered command is never a closepath (it is forgotten right after being applied) -/
 def Good (st : PState) : Prop := st.command ≠ some 'Z' ∧ st.command ≠ some 'z'
 
@@ -215,16 +224,17 @@ theorem step_lt {st st' : PState} (hg : Good st) (h : step st = some st') :
       · omega
       · rw [h1]; exact Nat.le_refl _
     dsimp only at h
-    have hcoord : ∀ (s0 : PState) (g : (Rat × Rat) × Str → Rat × Rat) (s : Str) (x : PState),
-        ((readCoord s).map fun p => s0.update (g p) p.2) = some x →
-        x.rest.length < s.length ∧ x.command = s0.command := by
-      intro s0 g s x hx
+    have hcoord : ∀ (f : (Rat × Rat) × Str → PState) (c0 : Option Char) (s : Str) (x : PState),
+        (∀ p, (f p).rest = p.2 ∧ (f p).command = c0) →
+        ((readCoord s).map f) = some x →
+        x.rest.length < s.length ∧ x.command = c0 := by
+      intro f c0 s x hf hx
       cases hc : readCoord s with
       | none => rw [hc] at hx; cases hx
       | some v =>
         rw [hc] at hx
         simp only [Option.map_some, Option.some.injEq] at hx
-        rw [← hx, update_rest, update_command]
+        rw [← hx, (hf v).1, (hf v).2]
         exact ⟨readCoord_lt (xy := v.1) (r := v.2) (by rw [hc]), rfl⟩
     have hnum : ∀ (s0 : PState) (g : Rat × Str → Rat × Rat) (s : Str) (x : PState),
         ((readNumber s).map fun p => s0.update (g p) p.2) = some x →
@@ -251,13 +261,13 @@ theorem step_lt {st st' : PState} (hg : Good st) (h : step st = some st') :
     by_cases hM : (cmd == 'M' || cmd == 'L' || cmd == 'T') = true
     · rw [if_pos hM] at h
       have hz : ¬ (cmd = 'Z' ∨ cmd = 'z') := by rintro (rfl | rfl) <;> simp at hM
-      exact fin r (Nat.le_refl _) hz (hcoord _ (fun p => p.1) _ _ h)
+      exact fin r (Nat.le_refl _) hz (hcoord _ (some cmd) _ _ (fun p => mark_update _ _ _ _) h)
     rw [if_neg hM] at h
     clear hM
     by_cases hM : (cmd == 'm' || cmd == 'l' || cmd == 't') = true
     · rw [if_pos hM] at h
       have hz : ¬ (cmd = 'Z' ∨ cmd = 'z') := by rintro (rfl | rfl) <;> simp at hM
-      exact fin r (Nat.le_refl _) hz (hcoord _ _ _ _ h)
+      exact fin r (Nat.le_refl _) hz (hcoord _ (some cmd) _ _ (fun p => mark_update _ _ _ _) h)
     rw [if_neg hM] at h
     clear hM
     by_cases hM : (cmd == 'H') = true
@@ -311,18 +321,18 @@ theorem step_lt {st st' : PState} (hg : Good st) (h : step st = some st') :
     rw [if_neg hZ] at h
     have hz : ¬ (cmd = 'Z' ∨ cmd = 'z') := by simpa using hZ
     -- the remaining commands skip some coordinates / numbers first
-    have hbind : ∀ (o : Option Str) (g : (Rat × Rat) × Str → Rat × Rat) (s0 : PState),
-        s0.command = some cmd →
+    have hbind : ∀ (o : Option Str) (f : (Rat × Rat) × Str → PState),
+        (∀ p, (f p).rest = p.2 ∧ (f p).command = some cmd) →
         (∀ s1, o = some s1 → s1.length ≤ r.length) →
-        (o.bind fun s => (readCoord s).map fun p => s0.update (g p) p.2) = some st' →
+        (o.bind fun s => (readCoord s).map f) = some st' →
         st'.rest.length < st.rest.length ∧ Good st' := by
-      intro o g s0 hc0 ho hb
+      intro o f hf ho hb
       cases o with
       | none => cases hb
       | some s1 =>
         simp only [Option.bind_some] at hb
-        have := hcoord s0 g s1 st' hb
-        exact fin s1 (ho s1 rfl) hz ⟨this.1, by rw [this.2, hc0]⟩
+        have := hcoord f (some cmd) s1 st' hf hb
+        exact fin s1 (ho s1 rfl) hz this
     have hA : ∀ s1, (((((List.range 1).foldl (fun (acc : Option Str) _ => acc.bind fun x => (readCoord x).map (·.2)) (some r)).bind
         (fun s => (List.range 1).foldl (fun (acc : Option Str) _ => acc.bind fun x => (readNumber x).map (·.2)) (some s))).bind
         readFlag).bind readFlag) = some s1 →
@@ -350,32 +360,32 @@ theorem step_lt {st st' : PState} (hg : Good st) (h : step st = some st') :
             omega
     by_cases hM : (cmd == 'C') = true
     · rw [if_pos hM] at h
-      exact hbind _ (fun p => p.1) _ rfl (fun s1 h1 => foldCoords_le 2 r s1 h1) h
+      exact hbind _ _ (fun p => mark_update _ _ _ _) (fun s1 h1 => foldCoords_le 2 r s1 h1) h
     rw [if_neg hM] at h
     clear hM
     by_cases hM : (cmd == 'c') = true
     · rw [if_pos hM] at h
-      exact hbind _ _ _ rfl (fun s1 h1 => foldCoords_le 2 r s1 h1) h
+      exact hbind _ _ (fun p => mark_update _ _ _ _) (fun s1 h1 => foldCoords_le 2 r s1 h1) h
     rw [if_neg hM] at h
     clear hM
     by_cases hM : (cmd == 'S' || cmd == 'Q') = true
     · rw [if_pos hM] at h
-      exact hbind _ (fun p => p.1) _ rfl (fun s1 h1 => foldCoords_le 1 r s1 h1) h
+      exact hbind _ _ (fun p => mark_update _ _ _ _) (fun s1 h1 => foldCoords_le 1 r s1 h1) h
     rw [if_neg hM] at h
     clear hM
     by_cases hM : (cmd == 's' || cmd == 'q') = true
     · rw [if_pos hM] at h
-      exact hbind _ _ _ rfl (fun s1 h1 => foldCoords_le 1 r s1 h1) h
+      exact hbind _ _ (fun p => mark_update _ _ _ _) (fun s1 h1 => foldCoords_le 1 r s1 h1) h
     rw [if_neg hM] at h
     clear hM
     by_cases hM : (cmd == 'A') = true
     · rw [if_pos hM] at h
-      exact hbind _ (fun p => p.1) _ rfl hA h
+      exact hbind _ _ (fun p => mark_update _ _ _ _) hA h
     rw [if_neg hM] at h
     clear hM
     by_cases hM : (cmd == 'a') = true
     · rw [if_pos hM] at h
-      exact hbind _ _ _ rfl hA h
+      exact hbind _ _ (fun p => mark_update _ _ _ _) hA h
     rw [if_neg hM] at h
     clear hM
     cases h
